@@ -5,7 +5,7 @@
     than [m] probes returns [Hang], and [run] then ends with the output [RFail true].  [not_fail w]
     says that [w] is neither a hang nor a panic. *)
 From Coq Require Import List NArith Permutation.
-From Algo.C02 Require Import Model Spec ProofsChain ProofsLinear ProofsQuad.
+From Algo.C02 Require Import Model Spec ProofsChain ProofsLinear ProofsQuad ProofsDouble.
 Import ListNotations.
 
 (** Separate chaining (no probe loop: buckets are walked structurally): no operation of any history
@@ -67,6 +67,24 @@ Proof.
   - erewrite outs_match_length by (apply quad_refines; eauto). apply run_spec_length.
 Qed.
 
+(** Double hashing: same shape; occupancy invariant (live + soft-deleted) < m, all m probes distinct. *)
+Definition C03_terminates_double_full : Prop :=
+  forall (K V : Type) (eqb : K -> K -> bool) (eqv : V -> V -> bool) (hash : K -> N) (minlf maxlf : lf),
+    (forall a b, eqb a b = true <-> a = b) ->
+    valid_soft minlf maxlf ->
+    forall (cap : nat), valid_cap_prime cap ->
+    forall (orc : nat -> nat -> list nat -> list nat), (forall i j l, Permutation (orc i j l) l) ->
+    forall ops : list (op K V),
+      Forall (not_fail K V) (run K V eqb eqv hash minlf maxlf orc Double cap ops) /\
+      length (run K V eqb eqv hash minlf maxlf orc Double cap ops) = length ops.
+
+Theorem C03_terminates_double_partial : prime_gap -> C03_terminates_double_full.
+Proof.
+  intros G K V eqb eqv hash minlf maxlf He Hv cap Hc orc Ho ops. split.
+  - eapply outs_match_no_fail. apply double_refines; eauto.
+  - erewrite outs_match_length by (apply double_refines; eauto). apply run_spec_length.
+Qed.
+
 (** D03's history on the model of the repaired code: [Put i; Delete i] for 40 fresh keys, then a Put
     and lookups of an absent key: no operation returns [Hang]. *)
 Definition churn_hist (kd : kind) (hash : nat -> N) (rounds : nat) : res (nat * option nat) :=
@@ -91,3 +109,4 @@ Proof. vm_compute. split; reflexivity. Qed.
 Print Assumptions C03_terminates_chain.
 Print Assumptions C03_terminates_linear.
 Print Assumptions C03_terminates_quadratic_partial.
+Print Assumptions C03_terminates_double_partial.
